@@ -19,7 +19,7 @@ CLAUSE_PROPS = {
     "views_disagree": ["C17"],
     "common_rows_not_the_retained_observations": ["C17", "C09"],
     "group_rows_not_the_retained_observations": ["C17", "C09"],
-    "response_rows_not_the_retained_observations": ["C17", "C09"],
+    "response_rows_not_the_retained_observations": ["C17", "C09", "C15"],
     "incomplete_rows_not_refused": ["C09"],
     "complete_data_refused": ["C09"],
     "response_presence_differs_from_formula": ["C15"],
@@ -76,6 +76,9 @@ def _event(args):
     text, used, struct = gen.gen_formula(rng, groups=opts.get("groups", True), max_terms=opts.get("max_terms", 4), resp=resp, hier=opts.get("hier", 0.85))
     policy = rng.choice(opts.get("policies", ["drop"]))
     ev, dm = gen.record_build(idx, text, used, w, policy)
+    if opts.get("only_resp") and ev["status"] == "ok":
+        # judge the response part on its own (the judge names the first failing clause of an event)
+        ev["common"], ev["group"] = dict(gen.EMPTY), dict(gen.EMPTY)
     if opts.get("newdata") and ev["status"] == "ok":
         # the design evaluated on new data (all training rows, reordered / repeated): same labels, same meaning
         ev, err = gen.record_newdata(idx, text, used, w, dm, rng)
